@@ -30,6 +30,8 @@ enum Op {
     Enable,
     Disable,
     Delete,
+    /// hard reset_peer API: Cease to every live session, the neighbour stays configured
+    Reset,
 }
 
 fn rname(r: crate::fsm::Role) -> &'static str {
@@ -46,6 +48,7 @@ fn op_name(o: &Op) -> String {
         Op::Enable => "enable(static)".into(),
         Op::Disable => "disable(static)".into(),
         Op::Delete => "delete(static)".into(),
+        Op::Reset => "hard_reset(static)".into(),
     }
 }
 
@@ -276,9 +279,12 @@ impl Model for AcceptModel {
                             let active_tx = d.active_tx.clone();
                             let join = tokio::spawn(async move { session.run(global, active_tx).await });
                             // the daemon's OPEN as seen on the wire
-                            let mut conn = Conn { stream: Some(client), rx: bytes::BytesMut::new(), codec: bgp::PeerCodec::new(), join: Some(join), counter_rx: Default::default(), daemon_open: None, from: addr };
-                            let open = match conn.read_msg().await? {
-                                Some(bgp::ParsedMessage::Open(o)) => Some(o),
+                            let mut conn = Conn { stream: Some(client), rx: bytes::BytesMut::new(), codec: bgp::PeerCodec::new(), join: Some(join), counter_rx: Default::default(), daemon_open: None, from: addr, limits: Vec::new() };
+                            // an accepted connection must send its OPEN; a session that neither
+                            // sends one nor closes is a verdict (no-open-sent), not a machinery error
+                            let open = match tokio::time::timeout(Duration::from_secs(8), conn.read_msg()).await {
+                                Ok(Ok(Some(bgp::ParsedMessage::Open(o)))) => Some(o),
+                                Ok(Err(e)) => return Err(e),
                                 _ => None,
                             };
                             Ok((Some((conn, facts)), 0, open))
@@ -358,7 +364,7 @@ impl Model for AcceptModel {
                     sys.peers.remove(a);
                 }
             }
-            Op::Enable | Op::Disable | Op::Delete => {
+            Op::Enable | Op::Disable | Op::Delete | Op::Reset => {
                 if !sys.peers.get(&0).is_some_and(|(_, dynamic)| !*dynamic) {
                     return false; // the configured neighbour is gone (a dynamic one may have taken its address)
                 }
@@ -386,6 +392,14 @@ impl Model for AcceptModel {
                                 }
                             }
                         }
+                        Op::Reset => {
+                            if let Some(p) = g.peers.get(&A_STATIC) {
+                                p.context.lock().unwrap().force_down(
+                                    CloseReason::SendMessage(bgp::Message::Notification(rustybgp_packet::Notification::CeasePeerDeconfigured)),
+                                    false,
+                                );
+                            }
+                        }
                         _ => {
                             if let Some(p) = g.peers.remove(&A_STATIC) {
                                 p.context.lock().unwrap().force_down(
@@ -400,7 +414,7 @@ impl Model for AcceptModel {
                     Op::Enable => {
                         sys.peers.insert(0, (false, false));
                     }
-                    Op::Disable | Op::Delete => {
+                    Op::Disable | Op::Delete | Op::Reset => {
                         // live sessions of the static peer are shut down
                         let keys: Vec<(u8, usize)> = sys.live.keys().filter(|(_, a)| *a == 0).copied().collect();
                         for k in keys {
@@ -416,7 +430,7 @@ impl Model for AcceptModel {
                         }
                         if matches!(o, Op::Disable) {
                             sys.peers.insert(0, (true, false));
-                        } else {
+                        } else if matches!(o, Op::Delete) {
                             sys.peers.remove(&0);
                         }
                     }
@@ -448,6 +462,25 @@ impl Model for AcceptModel {
             let class = if keys.len() > want_keys.len() { "leftover-neighbour-state" } else { "neighbour-state-missing" };
             cur.push((format!("C16/peer-table/{class}"), format!("{}: Global.peers = {:?}, expected {:?}", op_name(o), keys, want_keys)));
         }
+        let fsm_states: BTreeMap<IpAddr, (crate::fsm::State, crate::fsm::State)> = sys.rt.block_on(async {
+            let g = sys.d.global.read().await;
+            g.peers
+                .iter()
+                .map(|(a, p)| {
+                    let ctx = p.context.lock().unwrap();
+                    let arb = ctx.conn_arbiter.lock().unwrap();
+                    (*a, (arb.state(crate::fsm::Role::Active), arb.state(crate::fsm::Role::Passive)))
+                })
+                .collect()
+        });
+        for (a, (sa, sp)) in &fsm_states {
+            let ai = ADDRS.iter().position(|x| x == a).unwrap_or(9);
+            for (r, st) in [(0u8, sa), (1u8, sp)] {
+                if !sys.live.contains_key(&(r, ai)) && *st != crate::fsm::State::Idle {
+                    cur.push(("C16/fsm-slot-leaked".into(), format!("{}: {} has no live {} connection but its FSM slot is in {:?}", op_name(o), a, if r == 0 { "active" } else { "passive" }, st)));
+                }
+            }
+        }
         for (a, (act, pas)) in &slots {
             let ai = ADDRS.iter().position(|x| x == a).unwrap_or(9);
             let want = (sys.live.contains_key(&(0, ai)), sys.live.contains_key(&(1, ai)));
@@ -468,7 +501,22 @@ impl Model for AcceptModel {
     }
 
     fn fingerprint(&self, sys: &Sys) -> Vec<u8> {
-        format!("{:?}|{:?}|{:?}|{}", sys.peers, sys.live.keys().collect::<Vec<_>>(), sys.broken, sys.dead).into_bytes()
+        // the daemon's own per-neighbour state is part of the state (a leaked FSM slot changes the future)
+        let real: Vec<String> = sys.rt.block_on(async {
+            let g = sys.d.global.read().await;
+            let mut v: Vec<String> = g
+                .peers
+                .iter()
+                .map(|(a, p)| {
+                    let ctx = p.context.lock().unwrap();
+                    let arb = ctx.conn_arbiter.lock().unwrap();
+                    format!("{a}:{}:{:?}:{:?}:{}:{}", p.admin_down, arb.state(crate::fsm::Role::Active), arb.state(crate::fsm::Role::Passive), arb.active_close_tx.is_some(), arb.passive_close_tx.is_some())
+                })
+                .collect();
+            v.sort();
+            v
+        });
+        format!("{:?}|{:?}|{:?}|{}|{:?}", sys.peers, sys.live.keys().collect::<Vec<_>>(), sys.broken, sys.dead, real).into_bytes()
     }
 
     fn observe(&self, sys: &Sys) -> u64 {
@@ -498,7 +546,7 @@ fn accept_models() -> Vec<AcceptModel> {
                 v.push(Op::Disconnect(r, a));
             }
         }
-        v.extend([Op::Disable, Op::Enable, Op::Delete]);
+        v.extend([Op::Disable, Op::Enable, Op::Delete, Op::Reset]);
         v
     };
     let g = |name: &'static str, prefix: &'static str, as_number: u32, local_asn: u32, rs: bool, rr: bool, hold: Option<u64>, gr: bool| GroupCfg { name, prefix, as_number, local_asn, rs_client: rs, rr_client: rr, holdtime: hold, gr };
